@@ -273,6 +273,7 @@ class World:
         self.faults: dict[str, int] = {}
         self.reach: dict[str, int] = {}
         self.file_mtime_seq = 0
+        self.mark_hook = None
 
     # ---------------------------------------------------------------- helpers
     def vts(self) -> float:
@@ -379,6 +380,8 @@ class World:
         }
         self.marks.append(rec)
         self.trace.append(["mark", rec["t"], rec["task"], rec["args"], rec["kw"]])
+        if self.mark_hook is not None:
+            self.mark_hook(rec)
 
     def _native(self, name: str):
         """Return a harness-side native object to scripts (``sim.get('x')``)."""
